@@ -179,3 +179,17 @@ def kinds(S):
         except AutoTheoryFailed:
             ok = True
         S.claim(f'non_scatterer_{type(bad).__name__}_clear_error', ok)
+
+
+from props import mlcommon as mc  # noqa
+from props.C05 import _rotation_body  # noqa
+
+
+@obligation('C09.rotation.superposition_member', functions=mc.ML_FUNCS, stubs=mc.ML_STUBS, angle_mode='atoms',
+            timeout_s=120, nvalid=2,
+            bounds='cluster members treated independently (Mie-superposition family, decided for the pure-Python '
+                   'MieLens member kernel): rotating detector point, member position and polarization by any angle '
+                   'about the optical axis rotates the member field; together with C06 superposition this gives '
+                   'covariance of the cluster field')
+def rotation_member(S):
+    _rotation_body(S, 2)
